@@ -81,6 +81,8 @@ def check(case: Dict[str, Any]) -> CaseInfo:
 
     p = case["params"]
     classes: List[str] = []
+    if case["control"].get("unrounded"):
+        classes.append("unrounded_fractional_times")
     dev = {"CPU": DeviceType.CPU, "GPU": DeviceType.GPU, "ALL": DeviceType.ALL}[p["device"]]
     with scratch_dir() as d:
         sides = {}
@@ -121,9 +123,9 @@ def check(case: Dict[str, Any]) -> CaseInfo:
             for n in names:
                 r = df.loc[n]
                 wc, wt = want_c.get(n, [0, 0]), want_t.get(n, [0, 0])
-                got = [int(r[cl + "_counts"]), int(r[cl + "_total_duration"]), int(r[tl + "_counts"]), int(r[tl + "_total_duration"])]
+                got = [int(r[cl + "_counts"]), float(r[cl + "_total_duration"]), int(r[tl + "_counts"]), float(r[tl + "_total_duration"])]
                 require(got == wc + wt, "table:counts_and_durations", lambda: f"{n!r}: got {got}, expected {wc + wt}")
-                require(int(r["diff_counts"]) == wt[0] - wc[0] and int(r["diff_duration"]) == wt[1] - wc[1], "table:diff_is_test_minus_control",
+                require(int(r["diff_counts"]) == wt[0] - wc[0] and float(r["diff_duration"]) == wt[1] - wc[1], "table:diff_is_test_minus_control",
                         lambda: f"{n!r}: {r.to_dict()}")
                 sign = "+" if wt[0] > wc[0] else "-" if wt[0] < wc[0] else "="
                 require(r["counts_change_categories"] == sign, "table:change_category", lambda: f"{n!r}: {r['counts_change_categories']} vs {sign}")
@@ -250,6 +252,12 @@ def c17_case(draw):
         "equal_labels": draw(st.sampled_from([True, False, False])), "ops_first": draw(st.sampled_from([True, False])),
         "preloaded": {"control": draw(st.sampled_from([True, False, False])), "test": draw(st.sampled_from([True, False, False, False]))},
     }
+    if draw(st.sampled_from([True, False, False, False, False])):
+        # both sides with quarter-microsecond times, loaded with HTA_DISABLE_NS_ROUNDING=1 (the diff parses lazily, so the
+        # option must be the same for both sides): total durations and their differences are fractional
+        from hv.gen.files import scale_to_sub_microsecond
+        scale_to_sub_microsecond(control)
+        scale_to_sub_microsecond(test)
     return {"control": control, "test": test, "params": params}
 
 
